@@ -382,6 +382,8 @@ impl Options {
         self.hash_set
             .clone()
             .into_iter()
+            // two descriptions can share a key: merge them in the same order in every process
+            .sorted()
             .map(|option_arg| {
                 let value = match option_arg.clone() {
                     OptionArg::Simple { .. } => {
